@@ -89,13 +89,16 @@ register(
     lean_modules=["EventppVerif.Properties.C12", "EventppVerif.Properties.C12cl"],
     theorems=[],
     suites=[q_suite("filter", 300, 6000,
-                    [V("single", 0, 0, 0, 0), V("multi", 1, 1, 0, 0), V("single", 1, 1, 0, 0, cci=1), V("single", 0, 0, 0, 0, cci=1, getevent=1)],
+                    [V("single", 0, 0, 0, 0), V("multi", 1, 1, 0, 0), V("single", 1, 1, 0, 0, cci=1), V("single", 0, 0, 0, 0, cci=1, getevent=1),
+                     V("single", 0, 1, 0, 0, mixins=2)],
                     [V("single", 0, 0, 0, 0), V("multi", 1, 1, 0, 0), V("single", 0, 1, 1, 0), V("spin", 1, 0, 0, 0, cxx="clang++-14"),
+                     V("single", 0, 1, 0, 0, mixins=2), V("multi", 1, 0, 0, 0, mixins=2, cci=1),
                      V("single", 1, 1, 0, 0, cci=1), V("single", 0, 0, 0, 0, cci=1, getevent=1), V("multi", 0, 0, 1, 0, cci=1, cxx="clang++-14"),
                      V("single", 0, 1, 0, 1, cci=1, std="c++11")],
                     rule="random histories of filter / listener additions and removals with direct and queued dispatches; filters rewrite the argument "
                          "(by-value prototype) and block by script; variants with a canContinueInvoking policy (parameters by value; per script `cfg cci M R`: "
-                         "continue iff value % M != R, evaluated by the model on the possibly rewritten argument); distinct = distinct canonical output; non-trivial = >=2 filter calls and >=1 listener call",
+                         "continue iff value % M != R, evaluated by the model on the possibly rewritten argument), with two mixins (a pass-through mixin listed before MixinFilter), "
+                         "listeners registered through conditionalFunctor (run iff value % m == r) and argumentAdapter (own parameter type converted from the payload); distinct = distinct canonical output; non-trivial = >=2 filter calls and >=1 listener call",
                     nontrivial=nt_filter)],
 )
 
